@@ -123,6 +123,46 @@ Theorem C12_history_cut :
   (forall a b (o : ws_obj), ws_run o (a ++ b) = then_run ws_run (ws_run o a) b).
 Proof. exact history_cut. Qed.
 
+(* The Wrath client object driven at HEADER level on its receiving side (wch_run: a 4-byte Dec is
+   attempt_decrypt_server_header, a 1-byte Dec is decrypt_large_server_header, which completes the
+   header from the four bytes the attempt stashed).  The stash is state of the decrypter half: any
+   interleaving with sends, split and clone gives, per direction, exactly the calls of that direction
+   on that direction's half. *)
+Theorem C12_wrath_client_headers_independent : forall ops (o : wc_obj),
+  match wch_run o ops with
+  | Ok (o', oe, od) =>
+    run_calls W.ce_encrypt (fst (wc_view o)) (encs ops) = Ok (fst (wc_view o'), oe) /\
+    run_calls cd_receive (snd (wc_view o)) (decs ops) = Ok (snd (wc_view o'), od)
+  | Panic => run_calls W.ce_encrypt (fst (wc_view o)) (encs ops) = Panic \/
+             run_calls cd_receive (snd (wc_view o)) (decs ops) = Panic
+  | Err _ => False
+  end.
+Proof. exact wch_run_view_holds. Qed.
+
+(* clones anywhere change nothing and a history can be cut anywhere, at header level too *)
+Theorem C12_wrath_client_headers_clone_cut :
+  (forall ops (o : wc_obj), wch_run o ops = wch_run o (filter (fun x => negb (is_clone x)) ops)) /\
+  (forall a b (o : wc_obj), wch_run o (a ++ b) = then_run wch_run (wch_run o a) b).
+Proof. exact wch_clone_and_cut. Qed.
+
+(* a long header whose first four bytes have been received stays pending through anything that is not
+   a receive call (sends, split, clones): the fifth byte then yields the same header and the same
+   decrypter as the two steps back to back *)
+Theorem C12_pending_header_survives : forall (o : wc_obj) buf byte mid,
+  decs mid = [] ->
+  match wch_run o (Dec buf :: mid ++ [Dec [byte]]) with
+  | Ok (o', _, od) =>
+    exists d1 out1 d2 out2,
+      cd_receive (snd (wc_view o)) buf = Ok (d1, out1) /\ cd_receive d1 [byte] = Ok (d2, out2) /\
+      snd (wc_view o') = d2 /\ od = out1 ++ out2
+  | Panic =>
+    run_calls W.ce_encrypt (fst (wc_view o)) (encs mid) = Panic \/
+    cd_receive (snd (wc_view o)) buf = Panic \/
+    (exists d1 out1, cd_receive (snd (wc_view o)) buf = Ok (d1, out1) /\ cd_receive d1 [byte] = Panic)
+  | Err _ => False
+  end.
+Proof. exact pending_header_survives. Qed.
+
 (* non-vacuity: a concrete Vanilla history with split, clone, unsplit in the middle, evaluated *)
 Example C12_example_vanilla :
   let K := map N.of_nat (seq 1 40) in
@@ -158,3 +198,6 @@ Print Assumptions C12_unsplit_iff.
 Print Assumptions C12_unsplit_split.
 Print Assumptions C12_clone_transparent.
 Print Assumptions C12_history_cut.
+Print Assumptions C12_wrath_client_headers_independent.
+Print Assumptions C12_wrath_client_headers_clone_cut.
+Print Assumptions C12_pending_header_survives.
